@@ -300,7 +300,10 @@ def get(sock, path=b"/", close=False, timeout=3.0):
     sock.sendall(c.send(h11.EndOfMessage()))
     status, body = None, b""
     while True:
-        ev = c.next_event()
+        try:
+            ev = c.next_event()
+        except h11.RemoteProtocolError:
+            return None if status is None else (status, body, "closed")     # the server closed mid-response
         if ev is h11.NEED_DATA:
             try:
                 data = sock.recv(65536)
